@@ -281,6 +281,11 @@ def systematic_ops():
             ("symlink_to", ("livedir.lnk",), ("tgt d",))]
     ops += [(q, (l,)) for q in preds for l in ("live.lnk", "livedir.lnk")]
     ops += [("rmtree", ("tgt d",))] + [(q, (l,)) for q in preds for l in ("live.lnk", "livedir.lnk")]
+    # names with blanks, tabs and backslashes through walk, glob, checksum and size
+    ops += [("mkdir", ("w dir",), 0o755, False, False), ("write_text", ("w dir", "a b.txt"), "x"), ("write_text", ("w dir", "tab\there.txt"), "y"),
+            ("mkdir", ("w dir", "sub  dir"), 0o755, False, False), ("write_text", ("w dir", "sub  dir", "back\\slash.txt"), "hello world"),
+            ("walk", ("w dir",)), ("glob", ("w dir",), "*"), ("checksum", ("w dir", "sub  dir", "back\\slash.txt")), ("checksum", ("w dir", "a b.txt")),
+            ("size", ("w dir",)), ("checksum", ("w dir",)), ("read_text", ("w dir", "sub  dir", "back\\slash.txt"))]
     # link targets given with redundant syntax, and bounded reads
     ops += [("write_text", ("plain.txt",), "hello world"), ("symlink_text", ("dot.lnk",), "./plain.txt"), ("symlink_text", ("slash.lnk",), "plain.txt/"),
             ("symlink_text", ("up.lnk",), "x/../plain.txt"), ("exists", ("slash.lnk",)), ("is_file", ("dot.lnk",))]
